@@ -342,8 +342,13 @@ QUICK_FILES = ["just-puzzle-announce", "create-coin-hint", "create-coin-hint2", 
                "unknown-condition", "non-quote-0001-start", "new-agg-sigs", "double-spend", "duplicate-outputs"]
 
 
-def file_cases(tier, env, limit_bytes):
-    """generator-tests corpus: (name, program, refs)"""
+# programs above this size are run through the implementation-level oracles only: the Gallina SHA-256 of the model
+# runner needs ~1.4 ms per 64-byte block, i.e. minutes for the tree hashes of a 100 KB block
+MODEL_FILE_LIMIT = 20000
+
+
+def file_cases(tier, env, limit_bytes=MODEL_FILE_LIMIT):
+    """generator-tests corpus: (name, program, refs, implementation_only)"""
     out = []
     for p in sorted(glob.glob(C.REPO + "/generator-tests/*.txt")):
         name = os.path.basename(p)[:-4]
@@ -363,9 +368,7 @@ def file_cases(tier, env, limit_bytes):
         e = p[:-4] + ".env"
         if os.path.exists(e):
             refs = [bytes.fromhex(open(e).read().strip())]
-        if len(prog) + sum(len(x) for x in refs) > limit_bytes:
-            continue
-        out.append((name, prog, refs))
+        out.append((name, prog, refs, len(prog) > limit_bytes))
     return out
 
 
